@@ -152,6 +152,9 @@ func newPlan(rng *rand.Rand, r int, t int, opt workloadOpts) *plan {
 			p.hPost = append(p.hPost, []string{"hsethdr", "hsettrl", "hsettrl"}[rng.Intn(3)]+" md="+pickMDnn(rng))
 		}
 	}
+	if opt.precancel && rng.Intn(3) == 0 {
+		p.to = []int64{1, 1000, 1000000}[rng.Intn(3)]
+	}
 	if rng.Intn(4) == 0 || opt.errStatus {
 		p.hCode = 1 + rng.Intn(16)
 		p.hMsg = []string{"~", "boom", "bad+thing", "%E2%82%AC"}[rng.Intn(4)]
@@ -179,6 +182,7 @@ type workloadOpts struct {
 	disturb       string // "", cancel, timeout, fail, chclose, ctxend, stop, shutdown, late
 	maxSteps      int
 	noReader      bool // some RPC's consumer never reads (no head-of-line blocking)
+	precancel     bool // some RPCs start with a context that is (almost) expired
 	openMD        string
 }
 
@@ -193,6 +197,8 @@ type workload struct {
 	lateIssued int
 	draining int
 	opened  bool
+	stopsLeft  int
+	stopIssued bool
 }
 
 func newWorkload(name string, seed int64, opt workloadOpts) *workload {
@@ -291,9 +297,20 @@ func (wl *workload) Next(w *World, step int) string {
 			return wl.opt.disturb + " t=0"
 		case "stop":
 			return "stop"
-		case "shutdown":
+		case "shutdown", "shutdown+stop":
 			return "shutdown"
+		case "stop2":
+			wl.stopsLeft = 1
+			return "stop"
 		}
+	}
+	if wl.stopsLeft > 0 {
+		wl.stopsLeft--
+		return "stop"
+	}
+	if wl.opt.disturb == "shutdown+stop" && wl.distDone && !wl.stopIssued && step >= wl.distAt+3+wl.rng.Intn(6) {
+		wl.stopIssued = true
+		return "stop"
 	}
 	var moves []string
 	add := func(weight int, s string) {
@@ -378,7 +395,7 @@ func (wl *workload) Next(w *World, step int) string {
 		}
 	}
 	if len(moves) == 0 || (allDone && pc == 0 && ps == 0) {
-		if wl.opt.disturb == "late" || wl.opt.disturb == "shutdown" || wl.opt.disturb == "chclose" || wl.opt.disturb == "fail" || wl.opt.disturb == "ctxend" {
+		if wl.opt.disturb == "late" || wl.opt.disturb == "shutdown" || wl.opt.disturb == "shutdown+stop" || wl.opt.disturb == "chclose" || wl.opt.disturb == "fail" || wl.opt.disturb == "ctxend" {
 			if wl.lateIssued < 2 && len(wl.plans) < MaxRPC-1 {
 				wl.lateIssued++
 				p := newPlan(rng, len(wl.plans), 0, wl.opt)
